@@ -377,6 +377,15 @@ impl Module {
     }
 
     /// Gets the kind of this `Module`.
+    /// Id of this module in the status events recorded by `verif::take_module_events`.
+    #[cfg(boa_verif)]
+    pub(crate) fn verif_status_id(&self) -> Option<usize> {
+        match self.kind() {
+            ModuleKind::SourceText(src) => Some(src.verif_status_id()),
+            ModuleKind::Synthetic(_) => None,
+        }
+    }
+
     pub(crate) fn kind(&self) -> &ModuleKind {
         &self.inner.kind
     }
